@@ -122,9 +122,17 @@ func negatedEmptyList(v V, negated bool) bool {
 	return false
 }
 
+// a non-empty []byte, or a driver.Valuer whose Value() is one, as the ONLY argument of a primary-key condition
+func soleBytesKey(q *V, args []V) bool {
+	return q != nil && len(args) == 0 && (q.T == "VS" || q.T == "VDrv") && q.Sc != nil && q.Sc.K == "bytes" && q.Sc.S != ""
+}
+
 func sigWalk(v V, found map[string]bool) {
 	switch v.T {
 	case "KCond", "KHaving":
+		if soleBytesKey(v.X, v.L) {
+			found["bytes-as-primary-key"] = true
+		}
 		if v.X != nil && v.X.T == "VQStr" && bytesAfterParen(v.X.S, v.L, false) {
 			found["bytes-after-paren"] = true
 		}
@@ -168,6 +176,15 @@ func sigOf(in Input) string {
 	}
 	if in.Fin.X != nil {
 		sigWalk(*in.Fin.X, found)
+	}
+	if len(in.Fin.L) == 1 && soleBytesKey(&in.Fin.L[0], nil) {
+		switch in.Fin.K {
+		case "find", "first", "take", "last", "delete":
+			return "bytes-as-primary-key"
+		}
+	}
+	if found["bytes-as-primary-key"] {
+		return "bytes-as-primary-key"
 	}
 	if len(in.Fin.L) > 0 && in.Fin.L[0].T == "VQStr" && bytesAfterParen(in.Fin.L[0].S, in.Fin.L[1:], false) {
 		found["bytes-after-paren"] = true
